@@ -1,6 +1,7 @@
 """lifesim: reproducibility twins (C14) and lifecycle programs (C20)."""
 import copy
 import hashlib
+import functools
 import pickle
 import random as real_random
 import re
@@ -236,14 +237,51 @@ def process_part(processor, part):
     part.quality = real_random.random()
 
 
+MultiProc = None
+
+
+def _multi_proc_class():
+    """PartProcessor subclass with work orders that take time; a module attribute, so instances pickle by reference."""
+    global MultiProc
+    if MultiProc is None:
+        lib = core.load_library()
+
+        class _MP(lib.PartProcessor):
+            wo = {}
+
+            def get_work_order_duration(self, tag):
+                return self.wo.get(tag, (0, 1, 0))[0]
+
+            def get_work_order_capacity(self, tag):
+                return self.wo.get(tag, (0, 1, 0))[1]
+
+            def get_work_order_cost(self, tag):
+                return self.wo.get(tag, (0, 1, 0))[2]
+        _MP.__name__ = _MP.__qualname__ = 'MultiProc'
+        _MP.__module__ = __name__
+        MultiProc = _MP
+    return MultiProc
+
+
+def multi_toggle(scheduler, obj, time, state):
+    """ActionScheduler action (module level: the scheduler and its pending event travel through pickle)."""
+    if state == 'off':
+        obj.shutdown()
+    else:
+        obj.restore_functionality()
+
+
 def multi_sim(system, index, mspec, horizon):
     """Module-level (picklable) simulation function in the style of examples/SimulateMultipleTimes.py."""
-    from simprocesd.model.factory_floor import Source, PartProcessor, Sink, Buffer
+    from simprocesd.model.factory_floor import Source, Sink, Buffer, Maintainer, ActionScheduler
+    from simprocesd.model.sensors import PeriodicSensor, AttributeProbe
+    PartProcessor = _multi_proc_class()
     real_random.seed(mspec['seed'] + index)
     srcs = [Source(name=f'src{index}_{i}', cycle_time=s['ct'],
                    starting_parts=INF if s['parts'] is None else s['parts'])
             for i, s in enumerate(mspec['sources'])]
     prev = srcs
+    procs = []
     for r, amt in mspec.get('resources', {}).items():
         system.resource_manager.add_resources(r, amt)
     for j, st in enumerate(mspec['stages']):
@@ -252,13 +290,35 @@ def multi_sim(system, index, mspec, horizon):
                               resources_for_processing=st.get('res'))
             if st.get('rq'):
                 d.add_finish_processing_callback(process_part)
+            procs.append(d)
         else:
             d = Buffer(name=f'B{j}', upstream=prev, capacity=st['cap'])
         prev = [d]
     Sink(name='sink', upstream=prev, cycle_time=mspec.get('sink_ct', 0))
+    ex = mspec.get('extras')
+    if ex and procs:
+        # maintenance, failures, a shift schedule and a sensor: whatever is still pending or in progress when the
+        # run ends (work order under way, paused events, next sample, next shift change) is part of the result
+        m = Maintainer(capacity=ex['cap'])
+        for k, (t, tag, wo) in enumerate(ex['orders']):
+            p = procs[k % len(procs)]
+            p.wo = dict(p.wo, **{tag: tuple(wo)})
+            system.env.schedule_event(t, -1, functools.partial(m.create_work_order, p, tag), 4.5, 'order')
+        for k, t in enumerate(ex['fails']):
+            # (a device can only be told about its failure once the run has initialised it)
+            system.env.schedule_event(0, -1, functools.partial(procs[k % len(procs)].schedule_failure, t, 'multi'), 4.5, 'plan')
+        if ex.get('shift'):
+            sch = ActionScheduler([tuple(x) for x in ex['shift']], name='shift')
+            sch.register_object(procs[-1], multi_toggle)
+        if ex.get('sense'):
+            PeriodicSensor(ex['sense'], [AttributeProbe('uptime', procs[0])], name='sensor')
     system.simulate(horizon, print_summary=False)
     for _ in range(mspec.get('fail_draws', 0)):
         pass
+
+
+class PoolBoundaryError(Exception):
+    """a task or a result could not be pickled / unpickled: with real worker processes the call fails the same way"""
 
 
 class SimFuture:
@@ -267,7 +327,13 @@ class SimFuture:
 
     def result(self, timeout=None):
         self.pool.run_all()
-        return pickle.loads(self.pool.results[self.i])
+        r = self.pool.results[self.i]
+        if isinstance(r, PoolBoundaryError):
+            raise r
+        try:
+            return pickle.loads(r)
+        except Exception as e:
+            raise PoolBoundaryError(f'result of task #{self.i} cannot be unpickled: {type(e).__name__}: {e}')
 
 
 class SimPool:
@@ -291,7 +357,10 @@ class SimPool:
         return False
 
     def submit(self, fn, *args, **kwargs):
-        self.tasks.append(pickle.dumps((fn, args, kwargs)))
+        try:
+            self.tasks.append(pickle.dumps((fn, args, kwargs)))
+        except Exception as e:
+            raise PoolBoundaryError(f'task #{len(self.tasks)} cannot be pickled: {type(e).__name__}: {e}')
         return SimFuture(self, len(self.tasks) - 1)
 
     def shutdown(self, wait=True, **k):
@@ -317,7 +386,10 @@ class SimPool:
             real_random.setstate(wk[2])
             fn, args, kwargs = pickle.loads(self.tasks[ti])
             res = fn(*args, **kwargs)
-            self.results[ti] = pickle.dumps(res)
+            try:
+                self.results[ti] = pickle.dumps(res)
+            except Exception as e:
+                self.results[ti] = PoolBoundaryError(f'result of task #{ti} cannot be pickled: {type(e).__name__}: {e}')
             wk[0], wk[1], wk[2] = lib.Asset._id_counter, lib.System._instance, real_random.getstate()
         lib.Asset._id_counter, lib.System._instance = parent[0], parent[1]
         real_random.setstate(parent[2])
@@ -376,7 +448,7 @@ def run_c14_c(case):
     except (HarnessError, core.RunTimeout):
         raise
     except Exception as e:
-        if not core.raised_in_library(e):
+        if not core.raised_in_library(e) and not isinstance(e, PoolBoundaryError):
             raise
         v = Violation('C14.c', f'simulate_multiple_times raised {type(e).__name__}: {e}', extra={'kind': 'exception'})
         v.stats = stats
@@ -421,6 +493,15 @@ def gen_c14_c(rng, real_pool=False):
              'sources': [{'ct': rng.choice((0.5, 1, 1, 2)), 'parts': rng.choice((None, 5, 20))}
                          for _ in range(rng.choice((1, 2, 2, 3)))],
              'stages': stages, 'sink_ct': rng.choice((0, 0.25))}
+    if rng.random() < 0.5:
+        mspec['extras'] = {
+            'cap': rng.choice((1, 2, None)) or INF,
+            'orders': [(rng.choice((0.5, 1, 2, 3, 4, 4.5)), rng.choice('ab'), (rng.choice((0, 1, 3, 50)), 1, rng.choice((0, 2))))
+                       for _ in range(rng.choice((0, 1, 2, 3)))],
+            'fails': [rng.choice((1, 2.5, 4, 8)) for _ in range(rng.choice((0, 0, 1, 2)))],
+            'shift': rng.choice((None, [(2, 'on'), (1, 'off')], [(1.5, 'off'), (3, 'on')])),
+            'sense': rng.choice((None, 0.5, 2)),
+        }
     n = rng.choice((1, 2, 3, 5, 8)) if rng.random() > 0.03 else rng.choice((33, 40))
     procs = rng.sample([1, 2, 3, n, None], rng.choice((2, 3)))
     case = {'engine': 'lifesim_multi', 'mspec': mspec, 'horizon': rng.choice((5, 12, 30)), 'n': n, 'procs': procs,
@@ -712,6 +793,9 @@ def run_c20_registry(case):
                          f'{[a.name for a in exp]}', 'find')
                 if exp:
                     stats['reach']['nonempty_query'] = stats['reach'].get('nonempty_query', 0) + 1
+                # the result belongs to the caller: what it does with its list must not show in later look-ups
+                got.reverse()
+                del got[:1]
             # (a) registration: every asset is listed by exactly its own system; parts by none
             for si, (sysm, lst) in enumerate(systems):
                 allf = sysm.find_assets()
@@ -720,6 +804,7 @@ def run_c20_registry(case):
                          f'newest system: {[a.name for a in lst]}', 'registration')
                 if any(isinstance(a, lib.Part) for a in allf):
                     fail('C20.a', f'system #{si} lists a Part', 'part_registered')
+                allf.clear()
     except Violation:
         raise
     except (HarnessError, core.RunTimeout):
